@@ -76,6 +76,11 @@ RULE = {
 }
 
 
+def _lvl(name):
+    """Number of a level name; a level the case never declared (only a defective decode produces one) is 9."""
+    return LEVELS.get(name, 9)
+
+
 def sname(i):
     return 's%02d' % i
 
@@ -100,8 +105,8 @@ def aid_of(name):
 # --------------------------------------------------------------------------------------------
 
 MEMS = ['4G', '8G', '8G', '12G']
-LEASES = ['0s', '0s', '0s', '100s', '100s', '19d', '30d']
-RETENTIONS = [None, None, '0s', '30s', '30s', '1000s']
+LEASES = ['0s', '0s', '0s', '100s', '100s', '19d', '30d', '2m', '1H']
+RETENTIONS = [None, None, '0s', '30s', '30s', '1000s', '1m', '30S']
 
 
 # 't1' is registered under /traits; 't2' is NOT: the loader assigns its code when a server reporting it is loaded
@@ -148,7 +153,7 @@ def gen_case(rng, pid, tier):
         napps[0] += 1
         p, k = rng.randint(1, 2), rng.randint(0, 1)
         man = {'memory': rng.choice(['1G', '2G', '3G', '5G']), 'cpu': rng.choice(['10%', '50%', '200%']),
-               'disk': '1G', 'priority': rng.choice([1, 10, 50, 100])}
+               'disk': '1G', 'priority': rng.choice([0, 1, 10, 50, 100])}
         lim = limits[(p, k)]
         if lim:
             man['affinity_limits'] = lim
@@ -225,7 +230,7 @@ def gen_case(rng, pid, tier):
         elif r < 0.83:
             # re-evaluation event; sometimes for an instance deleted from /scheduled whose children watch has
             # not fired yet (the events watch is served first)
-            ops.append(['appsev', rng.randint(1, napps[0]), rng.choice([1, 50, 100]), rng.random() < 0.3])
+            ops.append(['appsev', rng.randint(1, napps[0]), rng.choice([0, 1, 50, 100, -1]), rng.random() < 0.3])
         elif r < 0.895:
             ops.append(['tick', rng.choice([1, 5, 29, 31, 40, 200, 301])])
         elif r < 0.903 and napps[0]:
@@ -580,6 +585,7 @@ def _install(w):
     Loader = w.loader_mod.Loader
     Master = w.master_mod.Master
     P = []
+    w.idg_calls = []
 
     def patch(cls, name, make):
         orig = getattr(cls, name)
@@ -593,7 +599,7 @@ def _install(w):
                     sid_of(node.name), w.bid(parent), w.vec(node.init_capacity),
                     LABELS[list(node.labels)[0]], node.traits.traits, int(node.valid_until)))
             else:
-                w.prim('bucket %d %d %d' % (w.bid(node), w.bid(parent), LEVELS[node.level]))
+                w.prim('bucket %d %d %d' % (w.bid(node), w.bid(parent), _lvl(node.level)))
                 # load_buckets builds sub-trees bottom-up before load_cell attaches them: the model
                 # (which can only attach below an attached node) is told top-down at that moment
                 for ch in node.children_iter():
@@ -651,7 +657,7 @@ def _install(w):
                                                    app.blacklisted))
             else:
                 lim = dict(app.affinity.limits)
-                lims = ','.join('%d:%d' % (LEVELS[k], v) for k, v in sorted(lim.items(), key=lambda kv: LEVELS[kv[0]])) or '-'
+                lims = ','.join('%d:%d' % (_lvl(k), v) for k, v in sorted(lim.items(), key=lambda kv: _lvl(kv[0]))) or '-'
                 w.prim('app %d %d %s %d %s %s %d %s %d %d %d' % (
                     aid, app.priority, w.vec(app.demand), w.aff(app.affinity.name), lims,
                     'none' if ret is None else int(ret), int(app.lease),
@@ -673,6 +679,7 @@ def _install(w):
 
     def mk_idg(orig):
         def configure_identity_group(self, name, count):
+            w.idg_calls.append(('cfg', name, count))
             orig(self, name, count)
             w.prim('idg %d %d' % (int(name[1:]), count))
         return configure_identity_group
@@ -680,6 +687,7 @@ def _install(w):
 
     def mk_rmidg(orig):
         def remove_identity_group(self, name):
+            w.idg_calls.append(('rm', name, None))
             orig(self, name)
             w.prim('rmidg %d' % int(name[1:]))
         return remove_identity_group
@@ -786,6 +794,248 @@ def _install(w):
                 w.gone_ctx = None
         return remove_server
     patch(Loader, 'remove_server', mk_remove_server)
+
+    # ---- server-state layer (TmVerif.SrvState): per-call correspondence --------------------------
+    # inputs are captured at the call boundary of the real method, the result is compared with the model's
+    # (stateless `f...` lines).  Only calls made by the live master are checked.
+    import time as _time
+    z = w.loader_mod.z
+    w.rec_calls, w.adj_log, w.reload_log, w.freeze_log = [], [], [], []
+    w.in_reload = 0
+
+    def _i(x):
+        return '%d' % x if x == int(x) else repr(x)
+
+    def _live(self):
+        return w.enabled and self is w.m
+
+    def mk_record_state(orig):
+        def _record_server_state(self, servername):
+            r = orig(self, servername)
+            if _live(self) and servername in self.servers:
+                st, since = self.servers[servername].get_state()
+                w.rec_calls.append((servername, st.value, since))
+            return r
+        return _record_server_state
+    patch(Master, '_record_server_state', mk_record_state)
+
+    def mk_adjust(orig):
+        def adjust_server_state(self, servername):
+            if not _live(self) or servername not in self.servers:
+                return orig(self, servername)
+            srv = self.servers[servername]
+            st0, since0 = srv.get_state()
+            rec = self.backend.get_default(z.path.placement(servername))
+            present = bool(self.backend.exists(z.path.server_presence(servername)))
+            now = _time.time()
+            n0 = len(w.rec_calls)
+            w.adj_log.append((servername, w.in_reload > 0))
+            r = orig(self, servername)
+            st1, since1 = srv.get_state()
+            recs = [c for c in w.rec_calls[n0:] if c[0] == servername]
+            exp = '%s %s %s' % (st1.value, _i(since1),
+                                '-' if not recs else ';'.join('%s:%s' % (c[1], _i(c[2])) for c in recs))
+            w.run.op('fadj %s %s %s %s %d %s' % (
+                st0.value, _i(since0), rec['state'] if rec else '-', _i(rec['since']) if rec else '0',
+                1 if present else 0, _i(now)), exp)
+            w.stats['fn:adjust'] += 1
+            return r
+        return adjust_server_state
+    patch(Loader, 'adjust_server_state', mk_adjust)
+
+    def mk_reload(orig):
+        def reload_server(self, servername):
+            if _live(self):
+                w.reload_log.append(servername)
+            w.in_reload += 1
+            try:
+                return orig(self, servername)
+            finally:
+                w.in_reload -= 1
+        return reload_server
+    patch(Loader, 'reload_server', mk_reload)
+
+    def mk_adjust_presence(orig):
+        def adjust_presence(self, servers):
+            if not _live(self):
+                return orig(self, servers)
+            before = sorted((sid_of(n), s.state.value) for n, s in self.servers.items())
+            present = sorted(sid_of(n) for n in servers if n in self.servers)
+            a0, r0 = len(w.adj_log), len(w.reload_log)
+            r = orig(self, servers)
+            reloaded = set(w.reload_log[r0:])
+            down = {n for n, nested in w.adj_log[a0:] if not nested and n not in reloaded}
+            w.run.op('fpres %s %s' % (','.join('%d:%s' % p for p in before) or '-',
+                                      ','.join(str(i) for i in present) or '-'),
+                     'down=%s up=%s' % (','.join(str(i) for i in sorted(sid_of(n) for n in down)) or '-',
+                                        ','.join(str(i) for i in sorted(sid_of(n) for n in reloaded)) or '-'))
+            w.stats['fn:adjust_presence'] += 1
+            return r
+        return adjust_presence
+    patch(Loader, 'adjust_presence', mk_adjust_presence)
+
+    def mk_freeze(orig):
+        def _freeze_server(self, servername, apps=None):
+            if _live(self):
+                w.freeze_log.append((servername, list(apps or [])))
+            return orig(self, servername, apps)
+        return _freeze_server
+    patch(Master, '_freeze_server', mk_freeze)
+
+    def mk_state_event(orig):
+        def _handle_server_state_event(self, node_name):
+            if not _live(self):
+                return orig(self, node_name)
+            servername, state, apps = tuple(self.backend.get(z.path.event(node_name)))
+            srv = self.servers.get(servername)
+            n0 = len(w.rec_calls)
+            marked0 = {n for n, a in self.cell.apps.items() if a.unschedule}
+            if srv is not None:
+                st0, since0 = srv.get_state()
+                on_srv = sorted(aid_of(n) for n in srv.apps)
+            now = _time.time()
+            r = orig(self, node_name)
+            marked1 = {n for n, a in self.cell.apps.items() if a.unschedule}
+            recs = w.rec_calls[n0:]
+            if srv is None:
+                if recs or marked1 != marked0:
+                    w.run.hits.append(fw.Hit(clause='state-event-on-unknown-server-acted',
+                                             call_site='_handle_server_state_event',
+                                             detail='%s %s %r: records %r, newly marked %r' % (
+                                                 servername, state, apps, recs, sorted(marked1 - marked0))))
+                return r
+            st1, since1 = srv.get_state()
+            named = [a for a in (apps or []) if '#' in a]
+            newly = {aid_of(n) for n in marked1 - marked0}
+            # an instance that was already marked and is named again on its own server stays marked: not
+            # observable, counted as marked (as the model does)
+            again = {aid_of(n) for n in marked0 if n in named and n in srv.apps} if state == 'frozen' else set()
+            exp = '%s %s marked=%s rec=%s' % (
+                st1.value, _i(since1), ','.join(str(i) for i in sorted(newly | again)) or '-',
+                ';'.join('%s:%s' % (c[1], _i(c[2])) for c in recs if c[0] == servername) or '-')
+            w.run.op('fevt %s %s %s %s %s %s' % (
+                st0.value, _i(since0), state if state in ('up', 'down', 'frozen') else 'other',
+                ','.join(str(i) for i in on_srv) or '-', ','.join(str(aid_of(a)) for a in named) or '-', _i(now)), exp)
+            w.stats['fn:state_event'] += 1
+            return r
+        return _handle_server_state_event
+    patch(Master, '_handle_server_state_event', mk_state_event)
+
+    def mk_pending(orig):
+        def _check_pending_start(self):
+            if not _live(self):
+                return orig(self)
+            running = set(self.backend.list(z.RUNNING))
+            pend0 = sorted((aid_of(a), sid_of(d['servername']), d['since']) for a, d in self.pending_start.items())
+            apps = []
+            for name, app in self.cell.apps.items():
+                sv = app.server
+                if sv and sv in self.servers:
+                    apps.append('%d:%d:%d:%s' % (aid_of(name), 1 if name in running else 0, sid_of(sv),
+                                                 self.servers[sv].state.value))
+                else:
+                    apps.append('%d:%d:-:up' % (aid_of(name), 1 if name in running else 0))
+            now = _time.time()
+            f0 = len(w.freeze_log)
+            r = orig(self)
+            pend1 = sorted((aid_of(a), sid_of(d['servername']), d['since']) for a, d in self.pending_start.items())
+            over = sorted((sid_of(sv), aid_of(a)) for sv, al in w.freeze_log[f0:] for a in al)
+            w.run.op('fpend %s %s %s' % (','.join('%d:%d:%s' % (a, sv, _i(t)) for a, sv, t in pend0) or '-',
+                                         ','.join(apps) or '-', _i(now)),
+                     'pend=%s overdue=%s' % (','.join('%d:%d:%s' % (a, sv, _i(t)) for a, sv, t in pend1) or '-',
+                                             ','.join('%d:%d' % p for p in over) or '-'))
+            w.stats['fn:pending_start'] += 1
+            if over:
+                w.run.tags.add('pending-start-froze')
+            return r
+        return _check_pending_start
+    patch(Master, '_check_pending_start', mk_pending)
+
+    # ---- the loader's decode step (TmVerif.LoaderDecode): per-call correspondence ----------------------
+    def _enc(v):
+        if v is None:
+            return '~'
+        v = str(v)
+        return '.'.join(str(ord(c)) for c in v) or '-'
+
+    w.last_assign = None
+
+    def mk_find_assignment(orig):
+        def find_assignment(self, name):
+            r = orig(self, name)
+            if _live(self):
+                w.last_assign = (name, r[0])
+            return r
+        return find_assignment
+    patch(Loader, 'find_assignment', mk_find_assignment)
+
+    def mk_load_app(orig):
+        def load_app(self, appname):
+            if not _live(self):
+                return orig(self, appname)
+            manifest = self.backend.get_default(z.path.scheduled(appname))
+            existed = appname in self.cell.apps
+            w.last_assign = None
+            r = orig(self, appname)
+            app = self.cell.apps.get(appname)
+            if not manifest or app is None or w.last_assign is None or w.last_assign[0] != appname:
+                return r
+            mp = manifest.get('priority') if 'priority' in manifest else None
+            w.run.op('fapp %d %s %s %s' % (
+                w.last_assign[1], '~' if mp is None else '%d' % int(mp),
+                '~' if existed else _enc(manifest.get('lease')), _enc(manifest.get('data_retention_timeout'))),
+                '%d %s %s' % (app.priority, '0' if existed else _i(app.lease),
+                              '-' if app.data_retention_timeout is None else _i(app.data_retention_timeout)))
+            w.stats['fn:load_app'] += 1
+            return r
+        return load_app
+    patch(Loader, 'load_app', mk_load_app)
+
+    def mk_load_bucket(orig):
+        def load_bucket(self, bucketname):
+            if not _live(self) or bucketname in self.buckets:
+                return orig(self, bucketname)
+            data = self.backend.get_default(z.path.bucket(bucketname), default={})
+            r = orig(self, bucketname)
+            w.run.op('fbkt %s %s' % (_enc(bucketname), _enc(data.get('level') if 'level' in data else None)),
+                     _enc(r.level))
+            w.stats['fn:load_bucket'] += 1
+            return r
+        return load_bucket
+    patch(Loader, 'load_bucket', mk_load_bucket)
+
+    def mk_create_server(orig):
+        def create_server(self, servername, data):
+            r = orig(self, servername, data)
+            if _live(self):
+                w.run.op('fsrv %s' % _enc(data.get('partition') if 'partition' in data else None),
+                         _enc(list(r.labels)[0] if len(r.labels) == 1 else repr(sorted(r.labels))))
+                w.stats['fn:create_server'] += 1
+            return r
+        return create_server
+    patch(Loader, 'create_server', mk_create_server)
+
+    def mk_load_idgs(orig):
+        def load_identity_groups(self):
+            if not _live(self):
+                return orig(self)
+            existing = sorted(int(n[1:]) for n in self.cell.identity_groups)
+            stored = []
+            for name in sorted(self.backend.list(z.IDENTITY_GROUPS)):
+                ident = self.backend.get_default(z.path.identity_group(name))
+                stored.append('%d:%s' % (int(name[1:]), 'e' if not ident else
+                                         ('n' if 'count' not in ident else '%d' % ident['count'])))
+            n0 = len(w.idg_calls)
+            r = orig(self)
+            calls = w.idg_calls[n0:]
+            w.run.op('fidg %s %s' % (','.join(str(i) for i in existing) or '-', ','.join(stored) or '-'),
+                     'rm=%s cfg=%s' % (
+                         ','.join(str(i) for i in sorted(int(c[1][1:]) for c in calls if c[0] == 'rm')) or '-',
+                         ','.join('%d:%d' % p for p in sorted((int(c[1][1:]), c[2]) for c in calls if c[0] == 'cfg')) or '-'))
+            w.stats['fn:load_identity_groups'] += 1
+            return r
+        return load_identity_groups
+    patch(Loader, 'load_identity_groups', mk_load_idgs)
 
     # ---- modelled functions: one line each, nested recording suppressed ----------------------
     def modelled(line_fn):
